@@ -51,6 +51,9 @@ def shard(s):
             for k in range(16):
                 _consume(acc, R.spell_covering(pat, k))
             _consume(acc, R.spell_rotating(pat))
+    elif kind == "LONG":
+        for pat in spaces.long_family(s[1]):
+            _consume(acc, R.spell_rotating(pat, s[1]))
     else:
         for pat in spaces.run_length_patterns(s[1], s[2]):
             _consume(acc, R.spell_rotating(pat, s[1]))
@@ -62,13 +65,16 @@ def run(tier, seed, t0):
     shards = [("P",) + s for s in spaces.word_shards(R.SYM, 1, L, 4)]
     shards += [("S",) + s for s in spaces.word_shards(R.SYM, 1, L2, 3)]
     shards += [("R", N, 3) for N in range(RN, 1, -1)]
+    LN = (64, 127, 128, 129, 200, 256) if tier == "quick" else (64, 127, 128, 129, 200, 255, 256, 257, 300, 400, 512, 700, 1000)
+    shards += [("LONG", N) for N in LN]
     acc = core.pmap(shard, shards)
     return core.finish(
         PROP, tier, seed, acc, t0,
         rule="every charge pattern of length 1..%d (K/E/G), every pattern of length 1..%d in 17 spellings covering all 20 "
-             "residues, every <=3-run pattern of length 2..%d; one real get_SCD() call each, compared with "
+             "residues, every <=3-run pattern of length 2..%d, a structured family of long patterns (homopolymers, 2/3-block, periodic) "
+             "at lengths %s; one real get_SCD() call each, compared with "
              "(1/N) sum_{m>n} q_m q_n sqrt(m-n) evaluated with integer pair counts per distance and math.fsum; "
-             "non-trivial = reference SCD != 0" % (L, L2, RN),
+             "non-trivial = reference SCD != 0" % (L, L2, RN, list(LN)),
         bounds={"L_base": L, "L_spellings": L2, "runlength_N": RN, "tolerance_rel": 1e-9},
         assumptions=["reference: vmc/refmodel/charge.py:scd"])
 
